@@ -108,3 +108,30 @@ Example c09_example_init_fails :
   | _ => False
   end.
 Proof. vm_compute. reflexivity. Qed.
+
+(* ---- run level (Proofs/FactoryWiring.v): a successful start left no required injection point of any
+   created component empty: each holds exactly what the resolution proposes for it ---------------------------- *)
+From IocVerif Require Import Proofs.FactoryWiring.
+
+Theorem c09_required_points_set : forall s st h c k p,
+  run repaired s = Ok st ->
+  procs_pointless_b (normalise repaired s) = true -> stages_ok_b (normalise repaired s) = true ->
+  alookup h (L1 (reg st)) <> None -> get_comp (s_pop s) h = Some c -> nth_error (c_points c) k = Some p ->
+  pt_required p = true ->
+  field_of st h k <> [].
+Proof.
+  intros s st h c k p H Hpp Hso Hpub Hc Hk Hr.
+  destruct (run_core_wired repaired (normalise repaired s) st eq_refl eq_refl eq_refl eq_refl Hpp Hso H h c k p Hpub Hc Hk)
+    as [x [Hx Hw]].
+  cbn [normalise s_pop s_oracle enum_order fix_c10 repaired] in Hx, Hw.
+  unfold further_one in Hx. rewrite Hr in Hx.
+  destruct (filter_dependencies repaired (s_pop s) h p (candidates (names_of (s_pop s)) (s_pop s) p)) as [l|] eqn:Ef;
+    [|discriminate].
+  injection Hx as <-.
+  assert (Hl : l <> []).
+  { rewrite filter_dependencies_repaired in Ef by reflexivity.
+    destruct (survivors (s_pop s) h p (candidates (names_of (s_pop s)) (s_pop s) p)) as [|a t] eqn:E; [discriminate|].
+    cbv zeta in Ef. injection Ef as Hl0. subst l.
+    destruct (pt_slice p); [|destruct t]; intro Hx0; inversion Hx0. }
+  apply (wired_point_required _ _ _ _ _ _ Hw Hr). rewrite remove_nil_map_Some. exact Hl.
+Qed.
